@@ -39,6 +39,10 @@ def collect(tier: str, seed: int, work: core.Work) -> dict:
         for m in mism:
             sig = dict(m['rec'].get('sig', {}))
             sig.update(clause=m['clause'], expected=m['exp'], record=m['rec'])
+            # C06: outputs survive export + parse.  The writer's exact text, the parser's behaviour
+            # on texts no writer produces and Output.combine are growth.
+            if m['clause'] != 'out.roundtrip':
+                sig['drift'] = 'Output'
             sigs.append(sig)
         rs = core.read_ndjson(p)
         samples.append({k: v for k, v in rs[len(rs) // 2].items() if k != 'sig'})
